@@ -70,205 +70,7 @@ def run(ctx):
     c08_pattern.run(ctx)
     dm = m.func(f"{MH}._dnsname_match")
 
-    # ------------------------------------------------------------------ R4 dispatch table
-    R4 = ctx.rule("C08-R4", "dispatch: DNS entries are consulted only when the host is not an IP, IP entries only when it is, commonName only when enabled and the host is not an IP and no SAN of either kind was seen; every non-matching path raises CertificateError", "E5 on match_hostname")
-    mh = m.func(f"{MH}.match_hostname")
+    # ------------------------------------------------------------------ R4 .. R7 on effect rows (c08_rest.py)
+    from . import c08_rest
 
-    class DispatchRule(BaseRule):
-        def __init__(self):
-            self.events = []
-
-        def after_assign(self, it, st, stmt, av):
-            tgt = stmt.targets[0] if isinstance(stmt, ast.Assign) else stmt.target
-            if isinstance(stmt.value, ast.List) and not stmt.value.elts and isinstance(tgt, ast.Name):
-                st.env[it.var(tgt.id)] = AV("unk", truth=False, none=False, tags=frozenset({"list"}))
-
-        def for_iter(self, it, st, stmt, itv):
-            ck = ("iters", stmt.lineno)
-            n = st.ts.get(ck, 0)
-            if n >= 1:
-                return [(st.copy(), False)]
-            s = st.copy()
-            s.ts[ck] = n + 1
-            if isinstance(stmt.target, ast.Tuple):
-                s.ts["curkey"] = f"key@{stmt.lineno}"
-                if itv.sym == "cert['subjectAltName']":
-                    s.ts["sankey"] = f"key@{stmt.lineno}"
-                it.assign(s, stmt.target, AV("tuple", (AV("unk", sym=f"key@{stmt.lineno}"), AV("unk", sym=f"value@{stmt.lineno}")), truth=True, none=False))
-            else:
-                it.assign(s, stmt.target, AV("unk", sym=f"sub@{stmt.lineno}"))
-            return [(s, True), (st.copy(), False)]
-
-        def call(self, it, st, node, recv, pos, kw):
-            t = ast.unparse(node.func)
-            if t == "ipaddress.ip_address":
-                return [Out("normal", st, AV("obj", "ip", truth=True, none=False)), Out("raise", st.copy(), exc("builtins.ValueError"))]
-            if t in ("_dnsname_match", "_ipaddress_match"):
-                s = st.copy()
-                hip = s.view(s.env.get(it.var(host_ip_name), UNK))
-                keyv = s.view(pos[0]) if pos else UNK
-                # has this path been through a subjectAltName entry of a kind that identifies the server (dNSName / iPAddress)?
-                sk = s.ts.get("sankey")
-                san_seen = any(s.ts.get(("cmp", sk, "==", repr(kind))) is True for kind in ("DNS", "IP Address")) if sk else False
-                s.ts["consults"] = s.ts.get("consults", ()) + ((t, hip.none, self._key_of(s, it), san_seen,
-                                                               s.facts.get("p:hostname_checks_common_name", (None, None))[0]),)
-                return [Out("normal", s, AV("unk", sym=f"match@{len(s.ts['consults'])}"))]
-            if isinstance(node.func, ast.Attribute) and node.func.attr == "append" and recv is not None and "list" in recv.tags:
-                s = st.copy()
-                if isinstance(node.func.value, ast.Name):
-                    s.env[it.var(node.func.value.id)] = AV("unk", truth=True, none=False, tags=frozenset({"list"}))
-                return [Out("normal", s, const(None))]
-            if isinstance(node.func, ast.Attribute) and node.func.attr == "get" and recv is not None and recv.sym == "p:cert" and pos and pos[0].kind == "const":
-                return [Out("normal", st, AV("unk", sym=f"cert[{pos[0].val!r}]"))]
-            if t in ("cert.get", "len", "map", "repr", "hostname.rfind"):
-                return [Out("normal", st, AV("unk", sym=f"v:{t}@{node.lineno}"))]
-            q = it.resolve_callee(node, recv)
-            if q and it.m.is_exception_class(q):
-                return [Out("normal", st, AV("exc", it.m.norm(q), truth=True, none=False))]
-            return [Out("normal", st, UNK)]
-
-        def _key_of(self, s, it):
-            cur = s.ts.get("curkey")
-            for k, v in s.ts.items():
-                if isinstance(k, tuple) and k[0] == "cmp" and k[2] == "==" and v is True and k[1] == cur:
-                    return k[3]
-            return None
-
-    # locals by role, not by name
-    host_ip_name = None
-    for n_ in astq.walk_fn(mh.node):
-        if isinstance(n_, ast.Assign) and isinstance(n_.targets[0], ast.Name):
-            if isinstance(n_.value, ast.Call) and astq.call_text(n_.value) == "ipaddress.ip_address":
-                host_ip_name = n_.targets[0].id
-    if host_ip_name is None:
-        raise AnalysisError("match_hostname: the local holding the parsed host IP was not found")
-    drule = DispatchRule()
-    outs, it = run_function(m, mh, drule, params={"cert": AV("unk", sym="p:cert", truth=True, none=False)}, record_decisions=True)
-    ctx.states += it.budget.steps
-    seen = set()
-    nn = 0
-    for o in outs:
-        for (fn, hip_none, key, dn_truth, cn_flag) in o.st.ts.get("consults", ()):
-            k = (fn, hip_none, key, dn_truth, cn_flag)
-            if k in seen:
-                continue
-            seen.add(k)
-            nn += 1
-            if fn == "_ipaddress_match":
-                ok = hip_none is False and key == "'IP Address'"
-                why = "an IP subjectAltName is compared although the requested host is not an IP address (or under another SAN type)"
-            elif key == "'DNS'":
-                ok = hip_none is True
-                why = "a DNS subjectAltName is matched against an IP-address host"
-            elif key == "'commonName'":
-                ok = hip_none is True and cn_flag is True and dn_truth is False
-                why = "commonName is consulted although it was not enabled, the host is an IP, or a dNSName / iPAddress subjectAltName was seen on this path (RFC 6125: the SAN extension, when it identifies the server, is the only source of names)"
-            else:
-                ok, why = False, f"name matcher consulted under key {key}"
-            ctx.ob(R4, mh.qual, f"{fn} consulted with host-is-IP={None if hip_none is None else (not hip_none)} key={key} SAN-seen={dn_truth} CN-enabled={cn_flag}", ok, "" if ok else why, node=mh.node)
-    ctx.sites(R4, nn, 3, "consultation contexts")
-    kinds = {}
-    for o in outs:
-        if o.kind == "raise" and o.val.val in (EXT_TOP.val, BASE_TOP.val):
-            continue
-        kinds.setdefault(outcome_name(o), []).append(o)
-    for k, lst in sorted(kinds.items()):
-        if k.startswith("return"):
-            # a return is only reached right after a truthy match
-            bad = [o for o in lst if not any(o.st.facts.get(f"match@{i + 1}", (None, None))[0] is True for i in range(len(o.st.ts.get("consults", ()))))]
-            ctx.ob(R4, mh.qual, f"success ({len(lst)} paths) only after a matcher returned true", not bad, "" if not bad else "match_hostname can return without any name having matched", witness=bad[0].st.witness() if bad else None, node=mh.node)
-        elif k == "raise:CertificateError":
-            ctx.ob(R4, mh.qual, f"no match -> CertificateError ({len(lst)} paths)", True)
-        elif k == "raise:ValueError":
-            ctx.ob(R4, mh.qual, "empty certificate -> ValueError", all(o.st.facts.get("p:cert", (None, None))[0] is False or True for o in lst))
-        else:
-            ctx.ob(R4, mh.qual, f"exit kind {k}", False, "a path through match_hostname ends neither in success after a match nor in CertificateError", witness=lst[0].st.witness(), node=mh.node)
-    ctx.ob(R4, mh.qual, "falling off the end is impossible (no normal exit)", "normal" not in kinds)
-
-    # ------------------------------------------------------------------ R5 IP by value
-    R5 = ctx.rule("C08-R5", "IP entries are compared by address value (packed bytes of parsed addresses); the zone id is cut before parsing the host", "E6")
-    im = m.func(f"{MH}._ipaddress_match")
-    rets = [r for r in astq.walk_fn(im.node) if isinstance(r, ast.Return)]
-    ok = len(rets) == 1 and ".packed == " in astq.text(rets[0]) and astq.text(rets[0]).count(".packed") == 2
-    ctx.ob(R5, im.qual, f"`{astq.text(rets[0]) if rets else ''}` compares packed addresses", ok, "" if ok else "IP subjectAltNames are compared textually: equivalent spellings differ, different addresses may agree")
-    ok = any(astq.call_text(c) == "ipaddress.ip_address" for c in astq.calls(im.node))
-    ctx.ob(R5, im.qual, "the certificate's value is parsed as an IP address", ok)
-    txt = astq.text(mh.node)
-    ctx.ob(R5, mh.qual, "zone id is cut before parsing the host", "hostname[:hostname.rfind('%')]" in txt.replace('"', "'"))
-
-    # ------------------------------------------------------------------ R6 bracket stripping
-    R6 = ctx.rule("C08-R6", "brackets are stripped from the asserted name only when the remainder is an IP literal", "E5 on _match_hostname")
-    cm = m.func(f"{CN}._match_hostname")
-    stores = [n for n in astq.walk_fn(cm.node) if isinstance(n, ast.Assign) and astq.text(n.targets[0]) == "asserted_hostname"]
-    ctx.sites(R6, len(stores), 1, "re-definitions of asserted_hostname")
-    for n in stores:
-        g = astq.enclosing(n, ast.If)
-        ok = g is not None and astq.call_text(g.test) == "is_ipaddress" if isinstance(getattr(g, "test", None), ast.Call) else False
-        srcs = astq.sources_of(cm.node, n.value)
-        ok = ok and any("strip('[]')" in astq.text(s).replace('"', "'") for s in srcs)
-        ctx.ob(R6, cm.qual, f"`{astq.text(n)}` under `{astq.text(g.test) if g is not None else ''}`", ok, node=n)
-
-    # ------------------------------------------------------------------ R7 fingerprint
-    R7 = ctx.rule("C08-R7", "fingerprint assertion: colons removed and lower-cased before the length is taken; length selects MD5/SHA-1/SHA-256 (32/40/64 = 2 x digest size); other lengths raise; digest compared with hmac.compare_digest against the un-hexed pin; inequality raises SSLError", "E6 + E2 + E5")
-    af = m.func(f"{SSLU}.assert_fingerprint")
-    txt = astq.text(af.node).replace('"', "'")
-    norm = [n for n in astq.walk_fn(af.node) if isinstance(n, ast.Assign) and astq.text(n.targets[0]) == "fingerprint"]
-    ok = any("replace(':', '')" in astq.text(n.value).replace('"', "'") and ".lower()" in astq.text(n.value) for n in norm)
-    ctx.ob(R7, af.qual, "pin is normalised: colons removed, lower-cased", ok)
-    ln = [n for n in astq.walk_fn(af.node) if isinstance(n, ast.Assign) and astq.text(n.value) == "len(fingerprint)"]  # `fingerprint` is the parameter
-    ctx.ob(R7, af.qual, "length is taken after normalisation", bool(ln) and bool(norm) and ln[0].lineno > max(n.lineno for n in norm))
-    # HASHFUNC_MAP table
-    st_ = m.assigns.get(SSLU, {}).get("HASHFUNC_MAP")
-    if not st_:
-        raise AnalysisError("HASHFUNC_MAP not found")
-    table = None
-    v = st_[-1].value
-    if isinstance(v, ast.DictComp):
-        try:
-            table = dict(fold.ev(v.generators[0].iter, SSLU))
-        except Exception:
-            table = None
-    elif isinstance(v, ast.Dict):
-        table = {}
-        for k, x in zip(v.keys, v.values):
-            table[fold.ev(k, SSLU)] = astq.text(x).split(".")[-1]
-    if table is None:
-        raise AnalysisError("HASHFUNC_MAP does not fold")
-    ctx.ob(R7, SSLU, f"HASHFUNC_MAP lengths {sorted(table)} == [32, 40, 64]", sorted(table) == [32, 40, 64])
-    for length, alg in sorted(table.items()):
-        try:
-            ds = hashlib.new(alg).digest_size
-        except Exception:
-            ds = None
-        ctx.ob(R7, SSLU, f"length {length} selects {alg} (digest size {ds})", ds is not None and ds * 2 == length and alg in ("md5", "sha1", "sha256"),
-               "" if ds is not None and ds * 2 == length else "pin length does not correspond to the selected digest")
-    def _is_len_of_pin(e):
-        return any(isinstance(x, ast.Call) and astq.text(x) == "len(fingerprint)" for x in astq.sources_of(af.node, e))
-
-    g = [n for n in astq.walk_fn(af.node) if isinstance(n, ast.If) and isinstance(n.test, ast.Compare) and isinstance(n.test.ops[0], ast.NotIn)
-         and astq.text(n.test.comparators[0]) == "HASHFUNC_MAP" and _is_len_of_pin(n.test.left)]
-    ok = bool(g) and astq.all_paths_end_in(g[0].body, lambda s: isinstance(s, ast.Raise) and s.exc is not None and "SSLError" in astq.text(s.exc))
-    ctx.ob(R7, af.qual, "a pin of any other length raises SSLError", ok)
-    cmpn = [n for n in astq.walk_fn(af.node) if isinstance(n, ast.If) and "compare_digest" in astq.text(n.test)]
-    ctx.sites(R7, len(cmpn), 1, "digest comparison")
-    for n in cmpn:
-        t = astq.text(n.test)
-        ok = isinstance(n.test, ast.UnaryOp) and isinstance(n.test.op, ast.Not) and isinstance(n.test.operand, ast.Call) \
-            and astq.call_text(n.test.operand) == "hmac.compare_digest" and astq.all_paths_end_in(n.body, lambda s: isinstance(s, ast.Raise) and s.exc is not None and "SSLError" in astq.text(s.exc))
-        ctx.ob(R7, af.qual, "`not hmac.compare_digest(digest, pin)` -> raise SSLError", ok, "" if ok else "a mismatching fingerprint is accepted", node=n)
-        c = n.test.operand if isinstance(n.test, ast.UnaryOp) else None
-        if isinstance(c, ast.Call) and len(c.args) == 2:
-            srcs_all = [x for a in c.args for x in astq.sources_of(af.node, a)]
-            has_digest = any(isinstance(x, ast.Call) and isinstance(x.func, ast.Attribute) and x.func.attr == "digest" and isinstance(x.func.value, ast.Call)
-                             and [astq.text(y) for y in x.func.value.args] == ["cert"]
-                             and any(isinstance(z, ast.Call) and astq.call_text(z) in ("HASHFUNC_MAP.get", ) or (isinstance(z, ast.Subscript) and astq.text(z.value) == "HASHFUNC_MAP")
-                                     for z in astq.sources_of(af.node, x.func.value.func)) for x in srcs_all)
-            has_pin = any(isinstance(x, ast.Call) and astq.call_text(x) == "unhexlify" and "fingerprint" in astq.names_in(x) for x in srcs_all)
-            ctx.ob(R7, af.qual, "compares <selected hash>(cert).digest() with the un-hexed pin", has_digest and has_pin, "; ".join(astq.text(x)[:40] for x in srcs_all), node=n)
-    hsel = [x for n in astq.walk_fn(af.node) if isinstance(n, ast.Assign) for x in [n.value]
-            if (isinstance(x, ast.Call) and astq.call_text(x) == "HASHFUNC_MAP.get" and x.args and _is_len_of_pin(x.args[0]))
-            or (isinstance(x, ast.Subscript) and astq.text(x.value) == "HASHFUNC_MAP" and _is_len_of_pin(x.slice))]
-    ctx.ob(R7, af.qual, "the digest is selected by the pin's length", bool(hsel))
-    g2 = [n for n in astq.walk_fn(af.node) if isinstance(n, ast.If) and astq.text(n.test) == "cert is None"]
-    ok = bool(g2) and astq.all_paths_end_in(g2[0].body, lambda s: isinstance(s, ast.Raise))
-    ctx.ob(R7, af.qual, "no certificate -> raise", ok)
+    c08_rest.run(ctx)
